@@ -76,7 +76,7 @@ def run(c):
     r = vlib.tlc_must_pass('Receiver', 'Receiver.cfg', workers=16 if thorough else 8, timeout=3000)
     c.add_tlc('Receiver.cfg', r)
     validate_traces(c, 0)
-    res = vlib.run_harness(['recvcorrupt'], timeout=900)
+    res = vlib.run_harness(['recvcorrupt'], timeout=900, crash_prop='C16')
     for m in res['mismatches']:
         m['sig']['prop'] = 'C16'
     vlib.absorb(c, res)
